@@ -35,6 +35,9 @@ def configs(quick):
     out = []
     for tp in (0.0, None, 0.5, 1.0, 0.6j):
         out.append(dict(dev="bar", tp=tp, cur={"source": 4.0, "drain": -4.0}, A=0.4, opts=dict(dt_init=1e-2, adaptive=False)))
+    # a non-zero terminal value with the adaptive rule on and updates that are refused and retried (strong drive,
+    # large dt_max): the value must be held after a retried step too
+    out.append(dict(dev="bar", tp=0.5, cur={"source": 25.0, "drain": -25.0}, A=1.5, T=0.3, k=1, refusals=True, opts=dict(dt_init=1e-3, dt_max=0.5, adaptive=True, adaptive_window=2, max_solve_retries=12)))
     # the same device object meshed again, finer (Triangle inserts new boundary vertices, some inside the terminals),
     # after it has been used for the runs above
     out.append(dict(dev="bar", tp=0.0, remesh=0.55, cur={"source": 4.0, "drain": -4.0}, A=0.4, opts=dict(dt_init=5e-3, adaptive=False)))
@@ -80,8 +83,13 @@ def eval_config(ctx, cfg, with_model=True):
     out = os.path.join(str(ctx.work), "c06.h5")
     if os.path.exists(out):
         os.remove(out)
-    opts = runs.options(solve_time=0.15, save_every=3, output_file=out, terminal_psi=tp, progress_interval=10**9, **cfg["opts"])
-    sol = tdgl.solve(dev, opts, applied_vector_potential=cfg["A"], terminal_currents=cfg["cur"])
+    opts = runs.options(solve_time=cfg.get("T", 0.15), save_every=cfg.get("k", 3), output_file=out, terminal_psi=tp, progress_interval=10**9, **cfg["opts"])
+    import c05
+
+    with c05.ScheduledRefusals(bool(cfg.get("refusals"))):  # every fourth evaluation of the site update is refused -> retried
+        sol = tdgl.solve(dev, opts, applied_vector_potential=cfg["A"], terminal_currents=cfg["cur"])
+    if cfg.get("refusals"):
+        ctx.count("runs_with_scheduled_refusals")
     frames, _ = runs.parse_h5(sol.path)
     tsites = np.unique(np.concatenate([t["sites"] for t in zoo.independent_terminals(dev).values()]))  # not via terminal_info()
     others = np.setdiff1d(np.arange(len(dev.mesh.sites)), tsites)
